@@ -208,3 +208,40 @@ def either(ctx, legacy, canonical, note="accepted in canonical form (equivalent 
                 sys.stderr.write("  [either: alternative formulation failed] %s/%s: %s\n" % (o[1], o[2], str(o[3])[:400]))
     t1.commit()
     return False
+
+
+def accumulation(ctx, f, source_pred):
+    """The explicit-loop spelling of `source.map(body).collect::<Vec<_>>()`: a Vec created empty in this call, one
+    `Iterator::next` on an iterator accepted by `source_pred` per iteration, exactly one `push` onto that Vec per element,
+    the Vec used after the loop.  Returns {"out": the Vec's expression, "item": the element expression (the Some payload),
+    "bodies": [(path, conditions besides the loop's own, pushed value)], "done": [paths after the source is exhausted]}
+    or None when the function is not of that shape.  (Elements are appended in source order, none skipped or repeated:
+    a body that does not push, pushes twice, pushes elsewhere, or a second cursor on the source makes it None.)"""
+    paths = live(ctx.cpaths(f))
+    is_nx = lambda c: callee_is(c, "Iterator::next") and len(c[3]) == 1 and source_pred(c[3][0])
+    is_out = lambda e: callee_is(strip(e, calls=()), "Vec::with_capacity", "Vec::new")
+    grow_names = ("Vec::push", "Extend::extend", "Vec::insert", "Vec::extend_from_slice", "Vec::append")
+    bodies, done, outs, item = [], [], set(), None
+    for p in paths:
+        nx = [c for c in p.calls() if is_nx(c)]
+        if len(nx) != 1 or len([c for c in p.calls() if callee_is(c, "Iterator::next")]) != 1:
+            return None
+        grow = calls_of(p, *grow_names)
+        if discr_is(p, lambda o: o == nx[0], 0):
+            if grow or p.end.startswith("loop:"):
+                return None
+            done.append(p)
+            continue
+        if p.end.startswith("loop:"):
+            if not (len(grow) == 1 and callee_is(grow[0], "Vec::push") and is_out(grow[0][3][0])):
+                return None
+            outs.add(strip(grow[0][3][0], calls=()))
+            item = ("field", nx[0], 0, "Some")
+            bodies.append((p, [c for c in p.conds if not (c[0][0] == "discr" and c[0][1] == nx[0])], grow[0][3][1]))
+        else:
+            if grow:
+                return None
+            bodies.append((p, [c for c in p.conds if not (c[0][0] == "discr" and c[0][1] == nx[0])], None))     # leaves from inside the loop (error / panic)
+    if len(outs) != 1 or not done or not any(b[2] is not None for b in bodies):
+        return None
+    return {"out": next(iter(outs)), "item": item, "bodies": bodies, "done": done}
